@@ -255,7 +255,7 @@ H("count_restarts_per_installation", variant="x64-linux", modules=["rt", "count"
 GATE_FUNCS = ["WhenCalledBuilder::will_execute_raw", "WhenCalledBuilderAsync::will_return_async", "WhenCalledBuilder::will_return_boolean",
               "injector::signature_returns_bool (if present)", "FuncPtr::new", "InjectorPP::when_called", "InjectorPP::when_called_async", "str::eq / str::trim"]
 MISMATCH = (r"will_execute_raw|will_return_async|will_return_boolean", r"Signature mismatch|signature|placeholder message")
-for n, unw in ((6, 26), (12, 26)):
+for n, unw in ((2, 26), (6, 26), (12, 26)):
     GSCHEMA = [("f", 8, 1), ("entry_bytes", 1, 24), ("la", 8, 1), ("a", 1, n), ("lb", 8, 1), ("b", 1, n), ("t", 8, 1)]
     H("sig_gate_differs_%d" % n, variant="x64-linux", modules=["rt", "gates"], cex_schema=GSCHEMA, replay="replay_sig_gate",
       expected=[MISMATCH], must_reach=[0], functions=GATE_FUNCS + X64_CORE_FUNCS,
@@ -419,16 +419,17 @@ PROPERTIES = {
         outside=["argument/return types other than the template's", "more than one call step per arm (the step is inductive)"],
     ),
     "C09": dict(
-        level_text="The gate is decided to be EXACT string equality for all pairs of recorded signatures up to the bound: for every two differing ASCII strings (length <= 6 quick / 12 thorough) the type-checked installation calls (will_execute_raw, will_return_async) do not return and the simulated machine sees no write, no mprotect and no mmap before the panic; for every two equal strings the installation completes. This rules out prefix / suffix / return-type-only weakenings of the comparison. Null pointers are refused by FuncPtr::new. Typed/unchecked mixes are the instances with one empty string.",
+        level_text="The gate is decided to be EXACT string equality for all pairs of recorded signatures up to the bound: for every two differing ASCII strings (length <= 2 and <= 6 quick / 12 thorough; the 2-byte bound stays decidable even when a changed comparison drags Unicode tables into the formula) the type-checked installation calls (will_execute_raw, will_return_async) do not return and the simulated machine sees no write, no mprotect and no mmap before the panic; for every two equal strings the installation completes. This rules out prefix / suffix / return-type-only weakenings of the comparison. Null pointers are refused by FuncPtr::new. Typed/unchecked mixes are the instances with one empty string.",
         level_note="The link from TYPES to STRINGS (std::any::type_name spelling differs for structurally different fn-pointer types) is a compiler fact, checked as a separate native premise over a generated family of types through every macro form; pairs differing only in lifetimes are reported, not judged.",
-        quick=["sig_gate_differs_6", "sig_gate_equal_6", "sig_gate_async_differs_6", "null_pointer_refused"],
-        thorough=["sig_gate_differs_6", "sig_gate_equal_6", "sig_gate_differs_12", "sig_gate_equal_12", "sig_gate_async_differs_6", "null_pointer_refused"],
+        quick=["sig_gate_differs_2", "sig_gate_equal_2", "sig_gate_differs_6", "sig_gate_equal_6", "sig_gate_async_differs_6", "null_pointer_refused"],
+        thorough=["sig_gate_differs_2", "sig_gate_equal_2", "sig_gate_differs_6", "sig_gate_equal_6", "sig_gate_differs_12", "sig_gate_equal_12", "sig_gate_async_differs_6", "null_pointer_refused"],
         premises=["premise_type_names_distinct"],
         outside=["signature strings longer than 12 bytes (the comparison is a byte-wise equality; no length-dependent branch exists in the checked code)"],
     ),
     "C10": dict(
         level_text="Stub half: the boolean trampoline is interpreted from a fully symbolic register file / stack pointer / return address (x86-64: `mov rax,imm32; ret`; AArch64: `movz w0,#v; ret`): the solver decides that the low byte of the result register equals the value, control returns to the caller's return address, the stack pointer is as after a normal return, no memory is written and no other register changes, for every placement. Gate half: for EVERY printable-ASCII signature string up to 16 (quick) / 22 (thorough) bytes that an independent parser reads as a fn-pointer type name, will_return_boolean is refused (nothing touched) when the top-level return type is not bool - including return types that merely end in `-> bool` - and accepted when it is exactly bool.",
         level_note="32-bit ARM implements the forced boolean as an ordinary redirect to one of two one-line functions: only the redirect is checked there (C16).",
+        premises=["premise_bool_gate_family"],
         quick=["x64_core_boolean", "a64_core_boolean", "bool_gate_refuses_16", "bool_gate_accepts_16"],
         thorough=["x64_core_boolean", "a64_core_boolean", "bool_gate_refuses_16", "bool_gate_accepts_16", "bool_gate_refuses_20", "bool_gate_refuses_22", "bool_gate_accepts_22"],
         timeout_min={"quick": 30, "thorough": 240},
@@ -624,6 +625,23 @@ def premise_poison_recovery(work, tier):
     return {"name": "poison_recovery", "ok": (True if ok is False else (False if ok is True else None)), "evaluations": 2, "distinct": 2,
             "violations": ["after a real unwinding exit with a fake installed: " + r.get("detail", "")] if ok is True else [],
             "detail": r.get("detail", ""), "samples": [scn]}
+
+
+def premise_bool_gate_family(work, tier):
+    """C10 native premise (NOT a solver step): will_return_boolean on a family of REAL function types, including
+    return types whose name merely ends in `-> bool` (fn pointers, dyn Fn trait objects behind & / *const / Box)."""
+    import native
+    try:
+        binp = native.build(work, "type_names")
+    except Exception as e:
+        return {"name": "bool_gate_family", "ok": None, "detail": "build failed: %s" % (str(e)[-400:],)}
+    p = subprocess.run([binp, "bool"], stdout=subprocess.PIPE, stderr=subprocess.STDOUT, text=True, timeout=120)
+    fails = [l[len("BOOLFAIL "):] for l in p.stdout.splitlines() if l.startswith("BOOLFAIL")]
+    m = re.search(r'BOOLSUMMARY types=(\d+) failures=(\d+)', p.stdout)
+    if not m:
+        return {"name": "bool_gate_family", "ok": None, "detail": "no summary: " + p.stdout[-300:]}
+    return {"name": "bool_gate_family", "ok": not fails, "evaluations": int(m.group(1)), "distinct": int(m.group(1)) - len(fails),
+            "violations": fails, "detail": m.group(0), "samples": ["fn() -> fn() -> bool", "fn() -> &dyn Fn() -> bool", "fn(fn() -> bool)"]}
 
 
 def premise_verifier_message(work, tier):
